@@ -26,7 +26,7 @@ struct Rng {
     bool chance( unsigned pct ) { return below( 100 ) < pct; }
 };
 
-enum SchedMode { M_RANDOM = 0, M_PCT = 1, M_PREEMPT = 2, M_REPLAY = 3 };
+enum SchedMode { M_RANDOM = 0, M_PCT = 1, M_PREEMPT = 2, M_REPLAY = 3, M_CASBIAS = 4 };
 
 struct SchedCfg {
     int mode = M_RANDOM;
